@@ -23,7 +23,9 @@ TConnected == IsEv("connected") /\ Connected /\ Consume /\ Keep
 \* datagrams of ONE sender arrive in the order sent; across senders the network decides
 TDg == IsEv("dg") /\ flight' = [flight EXCEPT ![Ev[l].s] = Append(@, Ev[l].cls)] /\ UNCHANGED vars /\ Consume
 TArrive == /\ UNCHANGED <<sc, l>>
-           /\ \E s \in Senders : flight[s] # <<>> /\ sockOpen /\ Send(s, Head(flight[s])) /\ flight' = [flight EXCEPT ![s] = Tail(@)]
+           \* class "either": decimal digits that are no calendar date / time of day - delivered (field as 'no value') or refused
+           /\ \E s \in Senders : /\ flight[s] # <<>> /\ sockOpen /\ flight' = [flight EXCEPT ![s] = Tail(@)]
+                                  /\ IF Head(flight[s]) = "either" THEN Send(s, "valid") \/ Send(s, "bad") ELSE Send(s, Head(flight[s]))
 TEvent == IsEv("event") /\ DCallback /\ hand.s = Ev[l].s /\ hand.n = Ev[l].n /\ Consume /\ Keep
 TError == IsEv("error") /\ LHandle /\ cur.cls = "bad" /\ Consume /\ Keep
 TQuit == IsEv("quit") /\ Quit /\ Consume /\ Keep
